@@ -1,4 +1,10 @@
 import Glas.Props.C19
+import Glas.Props.C19Tags
 #print axioms Glas.Props.C19.decode_encode
 #print axioms Glas.Props.C19.strictly_increasing
 #print axioms Glas.Props.C19.inside_line
+#print axioms Glas.Props.C19Tags.glas_tag_table
+#print axioms Glas.Props.C19Tags.tag_function_iff
+#print axioms Glas.Props.C19Tags.tag_constructor_iff
+#print axioms Glas.Props.C19Tags.tag_only_these
+#print axioms Glas.Props.C19Tags.module_never_tagged
